@@ -8,8 +8,10 @@ import (
 	"io/fs"
 	"net/http"
 	"strconv"
+	"strings"
 
 	"github.com/Dash-Industry-Forum/livesim2/internal"
+	"github.com/go-chi/chi/v5"
 )
 
 type welcomeInfo struct {
@@ -38,9 +40,15 @@ func (s *Server) favIconFunc(w http.ResponseWriter, r *http.Request) {
 	_, _ = w.Write(b)
 }
 
-// optionsHandlerFunc provides the allowed methods.
+// optionsHandlerFunc provides the allowed methods: the ones the route table serves for the requested path.
 func (s *Server) optionsHandlerFunc(w http.ResponseWriter, r *http.Request) {
-	w.Header().Set("Allow", "OPTIONS, GET, HEAD, POST")
+	allowed := []string{http.MethodOptions}
+	for _, method := range []string{http.MethodGet, http.MethodHead, http.MethodPost} {
+		if s.Router.Match(chi.NewRouteContext(), method, r.URL.Path) {
+			allowed = append(allowed, method)
+		}
+	}
+	w.Header().Set("Allow", strings.Join(allowed, ", "))
 	w.WriteHeader(http.StatusNoContent)
 }
 
